@@ -337,7 +337,7 @@ func c12Scenarios(tier string) []*Scenario {
 	mk := func(name, desc string, level string, b int, run func(w *World, r *regWorld)) {
 		for _, revOrder := range []bool{false, true} {
 			revOrder := revOrder
-			if revOrder && !strings.HasPrefix(name, "p3") && !strings.HasPrefix(name, "p4") {
+			if revOrder && !strings.HasPrefix(name, "p3") && !strings.HasPrefix(name, "p4") && !strings.HasPrefix(name, "p5") {
 				continue // the second scheduler family for the programs with concurrent threads
 			}
 			scs = append(scs, &Scenario{
@@ -460,6 +460,22 @@ func c12Scenarios(tier string) []*Scenario {
 				r.views("end")
 			})
 	}
+	// P5: two routers at once over a stable set: the cursor is advanced atomically, so two
+	// concurrent RPCs (and the two that follow) still use each tunnel exactly once
+	for _, key := range []string{"a", "*"} {
+		key := key
+		mk("p5-two-routers/"+map[string]string{"a": "key", "*": "all"}[key], "two tunnels (key a) are open and stable; two router threads each route one RPC at the same time, then two more RPCs are routed in sequence; every lock and atomic operation of the routing code is a scheduling point", "focus", bound+1,
+			func(w *World, r *regWorld) {
+				r.open("A", "a")
+				r.open("B", "a")
+				r1 := w.Go("router1", true, func() { r.route("c1", 10, key) })
+				r2 := w.Go("router2", true, func() { r.route("c2", 11, key) })
+				w.Join(r1, r2)
+				w.Vals["rr:conc"] = [2][]string{{"c1", "c2"}, {"A", "B"}}
+				rr(w, r, "after", []string{"s1", "s2"}, 20, key, []string{"A", "B"})
+				r.views("end")
+			})
+	}
 	// a tunnel that ends while it is being opened and registered must not stay in any view
 	for _, sc := range c14Dedicated(tier) {
 		if !strings.HasPrefix(sc.Name, "c14/open-vs-") {
@@ -483,6 +499,6 @@ func c12Scenarios(tier string) []*Scenario {
 
 func init() {
 	register(&PropDef{ID: "C12", Level: "model_checking",
-		Rule:      "registry histories over <= 4 reverse tunnels with keys from {nil, a, a, b}: open, close from the handler side, from the serving side (context cancel, Stop) and by carrier failure, interleaved with routed unary RPCs (AsChannel / KeyAsChannel), Ready / WaitForReady / AllReverseTunnels queries from other threads; every lock, atomic and channel operation of the registry code (handler.go, tunnelChannel.close) is a scheduling point; all schedules with <= 1 (quick) / 2 (thorough) deviations; oracle: at every check point with no open/close in progress the three views equal the model set, an RPC is only served by an open tunnel with the right key and succeeds when the key's set is stable and non-empty, n consecutive RPCs over a stable set of n tunnels use each once, WaitForReady returns iff the set is non-empty, one open then one close callback per tunnel, nothing left behind",
+		Rule:      "registry histories over <= 4 reverse tunnels with keys from {nil, a, a, b}: open, close from the handler side, from the serving side (context cancel, Stop) and by carrier failure, interleaved with routed unary RPCs (AsChannel / KeyAsChannel), Ready / WaitForReady / AllReverseTunnels queries from other threads; every lock, atomic and channel operation of the registry code (handler.go, tunnelChannel.close) is a scheduling point; all schedules with <= 1 (quick) / 2 (thorough) deviations; oracle: at every check point with no open/close in progress the three views equal the model set, an RPC is only served by an open tunnel with the right key and succeeds when the key's set is stable and non-empty, n consecutive RPCs over a stable set of n tunnels use each once (also when two of them are routed concurrently), WaitForReady returns iff the set is non-empty, one open then one close callback per tunnel, nothing left behind",
 		Scenarios: c12Scenarios})
 }
